@@ -224,10 +224,33 @@ def run(rep, tier, seed):
             xml2 = xml[:b["span"][0]] + esc(new).replace("\r", "&#13;") + xml[b["span"][1]:]
             items.append({"block": b, "fault": fault, "idpos": idpos, "xml": xml2,
                           "case": Case("f%d" % len(items), [Step("parse_doc", 0, "xml_buffer", 1, 0, xml2)], timeout=60)})
+    # warnings (strict invariants, expressions without effect, ...) on labels that are laid out over several lines: the
+    # structural clauses speak about warnings too
+    wcases = []
+    for i in range(300 if quick else 6000):
+        m = mg.model()
+        xmlw = GM.render_xml(m, rng)
+        out, last = [], 0
+        for b in blocks_of(xmlw):
+            if not b["kind"].startswith("label:"):
+                continue
+            txt = b["text"]
+            if b["kind"] == "label:assignment":
+                txt = txt + ", g0 == 1" if rng.random() < 0.5 else "g0 + 1, " + txt
+            elif b["kind"] == "label:invariant":
+                txt = txt.replace("<=", "<", 1)
+            toks = lexer.tokenize(txt)
+            # break the label over several lines between tokens
+            for t in sorted(rng.sample(toks[1:], min(len(toks) - 1, rng.randint(1, 3))), key=lambda t: -t.pos) if len(toks) > 1 else []:
+                txt = txt[:t.pos] + rng.choice(["\n", "\n   ", "\n\n", " // c\n"]) + txt[t.pos:]
+            out.append(xmlw[last:b["span"][0]] + esc(txt))
+            last = b["span"][1]
+        xmlw2 = "".join(out) + xmlw[last:]
+        wcases.append({"xml": xmlw2, "case": Case("w%d" % i, [Step("parse_doc", 0, "xml_buffer", 1, 0, xmlw2)], timeout=60)})
     # structural clauses on arbitrary hostile inputs as well
     hostile = [{"xml": x, "tag": t, "case": Case("h%d" % i, [Step("parse_doc", 0, "xml_buffer", 1, 0, x)], timeout=60)}
                for i, (t, x) in enumerate(workloads.hostile_models(rng, 1500 if quick else 20000))]
-    res = run_cases([it["case"] for it in items] + [h["case"] for h in hostile])
+    res = run_cases([it["case"] for it in items] + [h["case"] for h in hostile] + [w["case"] for w in wcases])
     n_diag = 0
     per_fault = {}
     for it in items:
@@ -274,6 +297,28 @@ def run(rep, tier, seed):
                 near = [(d["msg"], d["line"], d["col"], d["eline"], d["ecol"]) for d, e in zip(s["errors"], err_els) if e is target]
                 rep.violation("C06:identifier-range-wrong:%s" % b["kind"], "undeclared identifier %r at line %d columns %d-%d of <%s>; "
                               "reported ranges %s" % (name, line, col, ecol, b["kind"], near[:3]), it["case"])
+    n_warn = 0
+    for wc in wcases:
+        r = res[wc["case"].id]
+        if r["status"] != "ok":
+            rep.crash(r, wc["case"])
+            continue
+        sw = r["steps"][0]
+        if not sw["warnings"] and not sw["errors"]:
+            continue
+        try:
+            rootw = ET.fromstring(wc["xml"].encode("utf-8"))
+        except ET.ParseError:
+            continue
+        n_warn += len(sw["warnings"])
+        multi = sum(1 for d in sw["warnings"] if d["eline"] > d["line"])
+        rep.observe(("warnings", tuple(sorted(d["msg"] for d in sw["warnings"]))[:3], multi > 0))
+        check_structure(rep, rootw, list(rootw.iter()), sw["errors"] + sw["warnings"], wc["case"], "multi-line labels with warnings")
+        # a warning attached to a label that was broken over lines ends after it starts
+        for d in sw["warnings"]:
+            if (d["eline"], d["ecol"]) < (d["line"], d["col"]):
+                rep.violation("C06:warning-range-reversed", "warning %r from %d:%d to %d:%d" % (d["msg"], d["line"], d["col"], d["eline"], d["ecol"]), wc["case"])
+    rep.extra["warnings_checked"] = n_warn
     for h in hostile:
         r = res[h["case"].id]
         if r["status"] != "ok":
